@@ -313,6 +313,33 @@ fn check_node(n: &Node, pr: &Progs) -> Vec<(String, String, String)> {
         }
         // image followed by zeros, limits applied
         let img: Vec<u8> = q.bytes().cloned().collect();
+        // load = master reset + RAM image + limits and nothing else: rebuild that from public calls
+        // and compare whole machines (derived PartialEq: covers the step mode and every later field)
+        {
+            let mut e = m.clone();
+            e.master_reset();
+            {
+                let ram = e.raw_mut().bus_mut().memory_mut();
+                for (i, b) in ram.iter_mut().enumerate() {
+                    *b = img.get(i).cloned().unwrap_or(0);
+                }
+            }
+            if q.stacksize != Stacksize::NotSet {
+                e.raw_mut().set_stacksize(q.stacksize);
+            }
+            match q.programsize {
+                Programsize::Auto => e.raw_mut().set_programsize(Programsize::Size(img.len() as u8)),
+                Programsize::Size(n) => e.raw_mut().set_programsize(Programsize::Size(n)),
+                Programsize::NotSet => {}
+            }
+            e.set_input_fc(0x21);
+            e.set_input_fd(0x43);
+            if e != a {
+                let what = if e.step_mode() != a.step_mode() { "step mode" } else if e.bus() != a.bus() { "bus/board" } else { "cpu" };
+                bad.push(("load/more-than-master-reset-image-limits".into(), format!("load of follow-up #{} differs ({}) from master reset + RAM image + limits", qi, what), format!("LoadFollow{}", qi)));
+                continue;
+            }
+        }
         let ram = a.bus().memory();
         if ram[..img.len()] != img[..] || ram[img.len()..].iter().any(|b| *b != 0) {
             bad.push(("load/ram-image".into(), format!("after load of follow-up #{} the RAM is not the image followed by zeros", qi), format!("LoadFollow{}", qi)));
